@@ -1,4 +1,78 @@
-(* placeholder so that the pipeline can be exercised; replaced by the real theorems *)
-From SV Require Import Names Rep.
-Theorem C01_placeholder : True. Proof. exact I. Qed.
-Print Assumptions C01_placeholder.
+(* C01 -- every reachable complex is a well-formed complex: the part proved for every history.
+   Theorem statements only; proofs in Fresh.v, RepInv.v, Reach.v.
+
+   Proved here, for all finite histories of the representation's mutators (rejected calls
+   included) and through every algorithm of base.py: names are unique, simplices() lists each
+   simplex exactly once and is the concatenation of the per-order listings in increasing order,
+   orderOf/indexOf are the position in the listing, generated names never collide with a name in
+   use.  Not proved (tested by the oracle, see evidence tested_only): the face/basis counts and
+   closedness (each simplex of order k has k+1 faces of order k-1 and a basis of k+1 points). *)
+From Coq Require Import String ZArith Bool Arith List.
+From SV Require Import Names NamesFacts ListFacts Rep Fresh Complex Atomic RepInv Reach.
+Import ListNotations.
+
+(* the invariant holds after any sequence of add / relabel / delete requests on the representation,
+   whatever their arguments -- a rejected request is a step like any other *)
+Theorem C01_reachable_invariant : forall uid ops, pinv (fold_left rstep ops (empty_rep uid)).
+Proof. exact reachable_pinv. Qed.
+Print Assumptions C01_reachable_invariant.
+
+(* and it is kept by the public mutators of SimplicialComplex *)
+Theorem C01_delete_keeps : forall r s r' x, pinv r -> deleteSimplex r s = (r', x) -> pinv r'.
+Proof. exact deleteSimplex_pinv. Qed.
+Print Assumptions C01_delete_keeps.
+Theorem C01_restrict_keeps : forall r bs r' x, pinv r -> restrictBasisTo r bs = (r', x) -> pinv r'.
+Proof. exact restrictBasisTo_pinv. Qed.
+Print Assumptions C01_restrict_keeps.
+Theorem C01_add_by_basis_keeps :
+  forall r bs id attr r' x, pinv r -> c_addSimplexWithBasis r bs id attr = (r', x) -> pinv r'.
+Proof. exact addSimplexWithBasis_pinv. Qed.
+Print Assumptions C01_add_by_basis_keeps.
+Theorem C01_subdivide_keeps : forall r s pts r' x, pinv r -> barycentricSubdivide r s pts = (r', x) -> pinv r'.
+Proof. exact barycentricSubdivide_pinv. Qed.
+Print Assumptions C01_subdivide_keeps.
+Theorem C01_relabel_keeps : forall r rn r' st x, pinv r -> relabel r rn = (r', st, x) -> pinv r'.
+Proof. exact relabel_pinv. Qed.
+Print Assumptions C01_relabel_keeps.
+Theorem C01_bulk_add_keeps :
+  forall hp r src rn hp' r' st x, pinv r -> addSimplicesFrom hp r src rn = (hp', r', st, x) -> pinv r'.
+Proof. exact addSimplicesFrom_pinv. Qed.
+Print Assumptions C01_bulk_add_keeps.
+
+(* observable consequences *)
+Theorem C01_names_unique :
+  forall r s k i k' i', pinv r ->
+  nth_error (simplicesOfOrder r k) i = Some s -> nth_error (simplicesOfOrder r k') i' = Some s -> k = k' /\ i = i'.
+Proof. exact listed_once. Qed.
+Print Assumptions C01_names_unique.
+
+Theorem C01_simplices_lists_each_once : forall r, pinv r -> NoDup (simplices r false).
+Proof. exact simplices_nodup. Qed.
+Print Assumptions C01_simplices_lists_each_once.
+
+Theorem C01_listings_partition :
+  forall r, pinv r -> simplices r false = concat (map (simplicesOfOrder r) (seq 0 (length (r_idx r)))).
+Proof. exact simplices_by_order. Qed.
+Print Assumptions C01_listings_partition.
+
+Theorem C01_member_iff_listed :
+  forall r s, pinv r -> (containsSimplex r s = true <-> exists k, In s (simplicesOfOrder r k)).
+Proof. exact contains_iff_listed. Qed.
+Print Assumptions C01_member_iff_listed.
+
+(* newSimplex: the search terminates within its fuel and the name is not in the complex, whatever
+   names (including look-alikes of generated names) the user chose *)
+Theorem C01_auto_fresh :
+  forall r d, exists i id, newSimplex r d = (set_seq r (S i), Ok id) /\ id = auto d i /\ r_seq r <= i /\
+                           containsSimplex r id = false.
+Proof. exact newSimplex_fresh. Qed.
+Print Assumptions C01_auto_fresh.
+
+(* non-vacuity: a history with a rejected call in the middle, names that look generated *)
+Example C01_example :
+  let r := fold_left rstep [OpAdd [] (Some (NStr "1d0")) None; OpAdd [] (Some (NInt 2)) None;
+                            OpAdd [NStr "1d0"; NStr "zzz"] None None;
+                            OpAdd [NStr "1d0"; NInt 2] None None; OpRelabel (NInt 2) (NTup [NInt 2]);
+                            OpForceDelete (NStr "1d1")] (empty_rep 1) in
+  simplices r false = [NStr "1d0"; NTup [NInt 2]; NStr "1d2"].
+Proof. vm_compute. reflexivity. Qed.
